@@ -70,6 +70,8 @@ def _definition_genes(spec: dict) -> list:
     for proto in spec["protos"]:
         names = set()
         for gene in spec["genes"]:
+            if proto.get("sideloaded"):
+                break       # documented: a sideloaded protocluster has no definition genes
             if proto["product"] in gene.get("core_for", []) and ring.contains(proto["core"], gene["loc"]):
                 names.add(gene["name"])
         result.append(names)
@@ -266,6 +268,7 @@ class Reference:
 # --------------------------------------------------------------------------- building and observing
 
 def _build_record(spec: dict):
+    from antismash.common.secmet.features.protocluster import SideloadedProtocluster
     from antismash.common.secmet.qualifiers.gene_functions import GeneFunction
     record = make_record(spec["L"], spec["circular"])
     for gene in spec["genes"]:
@@ -275,7 +278,10 @@ def _build_record(spec: dict):
         record.add_cds_feature(cds)
     protos = []
     for proto in spec["protos"]:
-        feature = make_protocluster(proto["core"], proto["loc"], product=proto["product"])
+        if proto.get("sideloaded"):
+            feature = SideloadedProtocluster(to_loc(proto["core"]), to_loc(proto["loc"]), "verif", proto["product"])
+        else:
+            feature = make_protocluster(proto["core"], proto["loc"], product=proto["product"])
         record.add_protocluster(feature)
         protos.append(feature)
     return record, protos
@@ -579,6 +585,8 @@ def _describe(spec: dict, got: list, model: Reference, repeated_member: bool) ->
         classes.append("observed_member_listed_twice")
     if any(len(p["loc"]["parts"]) > 1 for p in protos):
         classes.append("origin_spanning_protocluster")
+    if any(p.get("sideloaded") for p in protos):
+        classes.append("sideloaded_protocluster")
     classes.extend(f"input_class_{name}" for name in sorted(model.input_classes))
     nontrivial = (count >= 3 and len(relations) >= 2) or across_origin or identical or bool(model.extras)
     return {"nontrivial": nontrivial, "classes": classes}
@@ -728,6 +736,8 @@ def form_specs(draw):
                 left = right = 0
         core = ring.arc_to_loc(start, size, length, 1)
         protos.append({"core": core, "loc": _extent(start, size, left, right, length, circular), "product": product})
+        if draw(st.integers(0, 9)) == 0:
+            protos[-1]["sideloaded"] = True
     # gene functions: biased to the products of the protoclusters whose core holds the gene
     for gene in genes:
         holders = sorted({p["product"] for p in protos if ring.contains(p["core"], gene["loc"])})
